@@ -1670,6 +1670,18 @@ func helperRules(c *core.Ctx, codecs map[string]method05) {
 					}
 				} else if n := calleeName(call); strings.HasSuffix(n, ".WriteByte") {
 					emitted = append(emitted, call.Call.Args[1])
+				} else if strings.HasSuffix(n, ".Write") && len(call.Call.Args) == 2 && func() bool {
+					// buf.Write([]byte{hi, lo}): the literal's elements in order
+					if sl, ok := call.Call.Args[1].(*ssa.Slice); ok && sl.Low == nil && sl.High == nil {
+						if al, ok := sl.X.(*ssa.Alloc); ok {
+							if vals := arrayStores(al); len(vals) > 0 {
+								emitted = append(emitted, vals...)
+								return true
+							}
+						}
+					}
+					return false
+				}() {
 				} else if strings.HasSuffix(n, ".Write") || strings.HasSuffix(n, ".WriteString") {
 					problems = append(problems, "octets written by "+n+" are not analysed")
 				}
